@@ -45,10 +45,12 @@ func configs(tier string, from string) []Config {
 		cs = append(cs, Config{v, 2, 0})
 	}
 	cs = append(cs, Config{"8", 3, 0})
+	// 3-unit configurations of the other multi-issue variants (several seeded changes need a third unit)
+	cs = append(cs, Config{"6.0", 3, 3}, Config{"6.1", 3, 3}, Config{"6.2", 3, 3}, Config{"7.0", 3, 0}, Config{"7.1", 3, 0})
 	if tier == "thorough" {
-		cs = append(cs, Config{"6.0", 1, 1}, Config{"6.0", 3, 3}, Config{"6.0", 4, 4}, Config{"6.1", 2, 1}, Config{"6.1", 1, 2}, Config{"6.1", 3, 3},
-			Config{"6.2", 1, 1}, Config{"6.2", 3, 3}, Config{"6.3", 1, 1}, Config{"6.3", 4, 4},
-			Config{"7.0", 1, 0}, Config{"7.0", 3, 0}, Config{"7.1", 3, 0}, Config{"7.1", 4, 0}, Config{"8", 1, 0}, Config{"8", 4, 0})
+		cs = append(cs, Config{"6.0", 1, 1}, Config{"6.0", 4, 4}, Config{"6.1", 2, 1}, Config{"6.1", 1, 2},
+			Config{"6.2", 1, 1}, Config{"6.3", 1, 1}, Config{"6.3", 4, 4},
+			Config{"7.0", 1, 0}, Config{"7.1", 4, 0}, Config{"8", 1, 0}, Config{"8", 4, 0})
 	}
 	if from != "" {
 		var out []Config
@@ -201,6 +203,7 @@ func specC08(l *Loaded, tier string, seed int64) (*Spec, error) {
 	sks = append(sks, md[len(md)-2]) // a store/load chain whose termination depends on map order on MVP-6.0
 	sks = append(sks, Skeleton{ID: "c08:two-writers", Prog: asm("add t2, t0, t1", "add t2, t1, t1", "add t3, t2, t0", "sw t3, 64(zero)", "lw t4, 128(zero)", "add a3, t4, zero", "ret")},
 		Skeleton{ID: "c08:four-bytes-miss", Prog: asm("sw t0, 8(zero)", "sw t1, 72(zero)", "sw t2, 136(zero)", "lw t3, 200(zero)", "lw t4, 204(zero)", "add a3, t3, t4", "ret")})
+	sks = append(sks, extraControl()[0], extraCoherence()[3], extraCoherence()[4])
 	// D1: map-iteration order: ascending vs descending / insertion / reverse insertion
 	pols := [][2]string{{"0", "1"}, {"0", "3"}}
 	if tier == "thorough" {
@@ -221,7 +224,7 @@ func specC08(l *Loaded, tier string, seed int64) (*Spec, error) {
 		}
 	}
 	// D3: a parsed program reused on a second machine
-	reuse := [][2]Config{{{"6.1", 2, 2}, {"1", 1, 1}}, {{"6.1", 2, 2}, {"4", 1, 1}}, {{"6.3", 2, 2}, {"6.0", 2, 2}}, {{"7.1", 2, 0}, {"6.1", 2, 2}}, {{"8", 2, 0}, {"5", 1, 1}}, {{"6.1", 2, 2}, {"6.1", 2, 2}}, {{"8", 2, 0}, {"8", 2, 0}}}
+	reuse := [][2]Config{{{"6.1", 2, 2}, {"1", 1, 1}}, {{"6.1", 2, 2}, {"4", 1, 1}}, {{"6.3", 2, 2}, {"6.0", 2, 2}}, {{"7.1", 2, 0}, {"6.1", 2, 2}}, {{"8", 2, 0}, {"5", 1, 1}}, {{"6.1", 2, 2}, {"6.1", 2, 2}}, {{"8", 2, 0}, {"8", 2, 0}}, {{"6.2", 2, 2}, {"6.2", 2, 2}}, {{"6.3", 2, 2}, {"6.3", 2, 2}}, {{"7.0", 2, 0}, {"7.0", 2, 0}}}
 	for _, sk := range sks {
 		for _, r := range reuse {
 			jobs = append(jobs, c08Job(l, r[0], sk, "reuse", map[string]string{"variant2": r[1].Variant}, "-then-mvp"+r[1].Variant))
@@ -258,14 +261,24 @@ func specC06(l *Loaded, tier string, seed int64) (*Spec, error) {
 	}
 	sks := familyMemDeps(2, tier == "thorough")
 	sks = append(sks, familyCacheShort()...)
+	sks = append(sks, extraMemDeps()...)
+	sks = append(sks, extraCache()...)
 	sks = append(sks, Skeleton{ID: "gen:ld-alu-st", Prog: asm("lw t3, 8(zero)", "add t2, t0, t1", "sub t4, t2, t0", "sw t2, 128(zero)", "addi t6, t3, 1", "ret")},
 		Skeleton{ID: "c06:two-lines", Prog: asm("sw t0, 8(zero)", "sw t1, 72(zero)", "lw t3, 12(zero)", "lw t4, 76(zero)", "sw t3, 76(zero)", "sw t4, 12(zero)", "lw t5, 8(zero)", "lw t6, 72(zero)", "add a3, t5, t6", "ret")},
 		Skeleton{ID: "c06:ping-pong", Prog: asm("sw t0, 8(zero)", "lw t3, 8(zero)", "sw t1, 12(zero)", "lw t4, 12(zero)", "sw t3, 16(zero)", "lw t5, 16(zero)", "add a3, t4, t5", "ret")},
 		Skeleton{ID: "c06:shadow-store", Prog: asm("beq zero, zero, land", "sw t0, 8(zero)", "lw t3, 72(zero)", "land:", "lw t4, 8(zero)", "sw t1, 72(zero)", "add a3, t4, zero", "ret")})
+	sks = append(sks, extraCoherence()...)
 	if tier == "thorough" {
 		sks = append(sks, familyEviction(17, 64, "evict:17x64"), familyShadows(false)[0], familyShadows(false)[5], familyShadows(false)[20])
 	}
 	jobs := machineJobs(l, cfgs, sks)
+	var c8 []Config
+	for _, c := range cfgs {
+		if c.Variant == "8" && c.EU >= 2 {
+			c8 = append(c8, c)
+		}
+	}
+	jobs = append(jobs, machineJobs(l, c8, []Skeleton{familyEvictionUpper(84, 128, "evict-upper:84x128"), familyEviction(84, 128, "evict:84x128"), familyEvictionChain(64, 64, "evict-chain:64:upper")})...)
 	for _, j := range jobs {
 		j.Params["c06"] = "1"
 		j.Covers = append(j.Covers, "c06:checked")
@@ -306,13 +319,26 @@ func specC01(l *Loaded, tier string, seed int64) (*Spec, error) {
 	sks = append(sks, sample(familyShadows(false), nSh, 0)...)
 	sks = append(sks, sample(familyTails(), nTail, 0)...)
 	sks = append(sks, familyCacheShort()[:4]...)
-	return machineSpec(l, machineJobs(l, cfgs, sks), isArch, "general programs (ALU/immediate mixes, loops with concrete trip counts, calls, sub-word accesses, the repository's own programs at size 3 with symbolic data) plus a fixed sample of the dependence, memory-dependence, shadow and tail families",
+	sks = append(sks, extraGeneral()...)
+	sks = append(sks, extraDeps()...)
+	sks = append(sks, extraShadows()[:6]...)
+	sks = append(sks, extraMemDeps()[:6]...)
+	sks = append(sks, extraControl()...)
+	sks = append(sks, extraCoherence()...)
+	jobs01 := machineJobs(l, cfgs, sks)
+	for _, c := range cfgs {
+		if c.Variant == "8" {
+			jobs01 = append(jobs01, machineJob(l, c, familyEvictionChain(64, 64, "evict-chain:64:upper"), budgetK))
+		}
+	}
+	return machineSpec(l, jobs01, isArch, "general programs (ALU/immediate mixes, loops with concrete trip counts, calls, sub-word accesses, the repository's own programs at size 3 with symbolic data) plus a fixed sample of the dependence, memory-dependence, shadow and tail families",
 		map[string]interface{}{"configurations": cfgNames(cfgs), "skeletons": len(sks), "max_instructions": 17, "memory_bytes": 256}), nil
 }
 
 func specC03(l *Loaded, tier string, seed int64) (*Spec, error) {
 	cfgs := configs(tier, "4")
 	sks := familyShadows(tier == "thorough")
+	sks = append(sks, extraShadows()...)
 	return machineSpec(l, machineJobs(l, cfgs, sks), isArch, "branch-shadow family: prefix x {always-taken, data-dependent, slow-resolving conditional branch, j, jal} x shadow of 1-3 instructions {register writes, sw/sb, lw in and out of bounds, jal, div by zero, second branch} x landing code reading the shadow's targets",
 		map[string]interface{}{"configurations": cfgNames(cfgs), "skeletons": len(sks), "shadow_length": "1..3"}), nil
 }
@@ -325,6 +351,7 @@ func specC04(l *Loaded, tier string, seed int64) (*Spec, error) {
 		n3 = 600
 	}
 	sks = append(sks, sample(familyDeps(3, true), n3, 0)...)
+	sks = append(sks, extraDeps()...)
 	return machineSpec(l, machineJobs(l, cfgs, sks), isArch, "every dependence pattern (up to register renaming) on 2 instructions from {add, lw (miss/hit), sw (store data)} over three registers, plus a fixed sample of the 3-instruction patterns that also contain data-dependent branches",
 		map[string]interface{}{"configurations": cfgNames(cfgs), "skeletons": len(sks), "two_instruction_patterns": "all (canonical)", "three_instruction_patterns_sampled": n3}), nil
 }
@@ -332,6 +359,7 @@ func specC04(l *Loaded, tier string, seed int64) (*Spec, error) {
 func specC05(l *Loaded, tier string, seed int64) (*Spec, error) {
 	cfgs := configs(tier, "3")
 	sks := familyCacheShort()
+	sks = append(sks, extraCache()...)
 	jobs := machineJobs(l, cfgs, sks)
 	// eviction depth: one skeleton per cache geometry in quick, several in thorough
 	ev := []Skeleton{familyEviction(17, 64, "evict:17x64")}
@@ -345,9 +373,9 @@ func specC05(l *Loaded, tier string, seed int64) (*Spec, error) {
 			c8 = append(c8, c)
 		}
 	}
-	ev8 := []Skeleton{familyEviction(33, 128, "evict:33x128")}
+	ev8 := []Skeleton{familyEviction(84, 128, "evict:84x128"), familyEvictionUpper(84, 128, "evict-upper:84x128"), familyEvictionChain(64, 64, "evict-chain:64:upper"), familyEvictionChain(64, 0, "evict-chain:64:lower")}
 	if tier == "thorough" {
-		ev8 = append(ev8, familyEviction(34, 128, "evict:34x128"))
+		ev8 = append(ev8, familyEviction(86, 128, "evict:86x128"))
 	}
 	jobs = append(jobs, machineJobs(l, c8, ev8)...)
 	return machineSpec(l, jobs, isArch, "aligned byte/half/word load/store sequences: first-touch offsets {0,4,8,60} in two lines, overlapping fills of the first-miss-keyed lines of MVP-3..6, write-miss/read-neighbour, dirty data at exit, and eviction depth (17+ distinct 64-byte lines, 33+ 128-byte lines for MVP-8) with a dirty victim that is reloaded",
@@ -357,6 +385,7 @@ func specC05(l *Loaded, tier string, seed int64) (*Spec, error) {
 func specC09(l *Loaded, tier string, seed int64) (*Spec, error) {
 	cfgs := configs(tier, "4")
 	sks := familyTails()
+	sks = append(sks, extraTails()...)
 	return machineSpec(l, machineJobs(l, cfgs, sks), isArch, "body x tail {lw miss/hit, sw miss/hit, lw+use, sw+sw, lb+sb, mul, ALU chain, li} placed immediately before ret and before the fall-through end",
 		map[string]interface{}{"configurations": cfgNames(cfgs), "skeletons": len(sks)}), nil
 }
@@ -368,6 +397,7 @@ func specC10(l *Loaded, tier string, seed int64) (*Spec, error) {
 		d = 4
 	}
 	sks := familyMemDeps(d, tier == "thorough")
+	sks = append(sks, extraMemDeps()...)
 	return machineSpec(l, machineJobs(l, cfgs, sks), isArch, "store->load, load->store and store->store pairs to the same byte/word/line at distance 1..d with independent address registers, cold and warm lines, partial overlaps",
 		map[string]interface{}{"configurations": cfgNames(cfgs), "skeletons": len(sks), "max_distance": d}), nil
 }
@@ -385,6 +415,13 @@ func specC07(l *Loaded, tier string, seed int64) (*Spec, error) {
 	sks = append(sks, sample(familyTails(), n, 0)...)
 	sks = append(sks, sample(familyDeps(2, false), n, 0)...)
 	sks = append(sks, familyCacheShort()...)
+	sks = append(sks, extraShadows()...)
+	sks = append(sks, extraMemDeps()...)
+	sks = append(sks, extraTails()...)
+	sks = append(sks, extraGeneral()...)
+	sks = append(sks, extraControl()...)
+	sks = append(sks, extraCoherence()...)
+	sks = append(sks, extraCache()...)
 	return machineSpec(l, machineJobs(l, cfgs, sks), isTermination, "termination obligations (no Go panic, Run returns within the cycle budget, returned cycles within the bound, ISA-defined errors reported as an error value) on error programs, the general family and a fixed sample of every other family",
 		map[string]interface{}{"configurations": cfgNames(cfgs), "skeletons": len(sks), "budget": "4*(executed+2)*309"}), nil
 }
@@ -399,7 +436,29 @@ func specC12(l *Loaded, tier string, seed int64) (*Spec, error) {
 	sks = append(sks, sample(familyTails(), n, 0)...)
 	sks = append(sks, sample(familyMemDeps(2, false), n, 0)...)
 	sks = append(sks, familyCacheShort()[:3]...)
+	sks = append(sks, extraGeneral()...)
+	sks = append(sks, extraTails()...)
+	sks = append(sks, extraControl()...)
 	jobs := machineJobs(l, cfgs, sks)
+	// value independence: two symbolic states on the same program path must get the same count
+	vi := append([]Skeleton{}, generalFor("quick")[:10]...)
+	vi = append(vi, Skeleton{ID: "vi:store-miss-then-work", Prog: asm("sw t0, 0(zero)", "addi t2, t2, 1", "sw t2, 8(zero)", "ret")},
+		Skeleton{ID: "vi:store-store-load", Prog: asm("sw t0, 72(zero)", "sw t1, 136(zero)", "lw t3, 200(zero)", "add a3, t3, zero", "ret")},
+		Skeleton{ID: "vi:load-alu-store", Prog: asm("lw t3, 8(zero)", "add t4, t3, t0", "sw t4, 72(zero)", "mul t5, t4, t1", "add a3, t5, zero", "ret")},
+		Skeleton{ID: "vi:subword", Prog: asm("lb t3, 9(zero)", "sb t0, 73(zero)", "lh t4, 10(zero)", "add a3, t3, t4", "ret")})
+	if tier == "thorough" {
+		vi = append(vi, sample(familyTails(), 12, 0)...)
+		vi = append(vi, sample(familyMemDeps(2, false), 12, 0)...)
+	}
+	for _, sk := range vi {
+		for _, cfg := range cfgs {
+			j := machineJob(l, cfg, sk, budgetK)
+			j.Fn = "VerifC12VI"
+			j.Key = "vi|" + j.Key
+			j.Covers = []string{"same-path"}
+			jobs = append(jobs, j)
+		}
+	}
 	return machineSpec(l, jobs, isCycles, "cycle obligations: MVP-1 equals the analytic latency sum over the reference trace, MVP-2 is not slower than that sum, every variant returns a positive count that is at least executed/width",
 		map[string]interface{}{"configurations": cfgNames(cfgs), "skeletons": len(sks)}), nil
 }
